@@ -292,6 +292,10 @@ def _ops():
         "call-cc": ("call-cc", 1, [["filters", "FL_cc"]], call_("threshold", "FL_cc")),
         "genemetrics": ("genemetrics", 1, [], lambda e, p: reports.do_genemetrics(e["cnr"], None, 0.2, 3, is_sample_female=True)),
         "genemetrics-seg": ("genemetrics-seg", 1, [], lambda e, p: reports.do_genemetrics(e["cnr"], e["seg"], 0.2, 3, is_sample_female=True)),
+        "genemetrics-cl": ("genemetrics-cl", 1, [], lambda e, p: reports.do_genemetrics(e["cnr"], e["cl"], 0.1, 1, skip_low=True)),
+        "bintest-target": ("bintest-target", 1, [], lambda e, p: bintest.do_bintest(e["cnr"], e["sm"], 0.2, target_only=True)),
+        "segmetrics-skip": ("segmetrics-skip", 1, [], lambda e, p: segmetrics.do_segmetrics(
+            e["cnr"], e["cl"], ("mode", "p_ttest"), ("mad", "iqr", "bivar", "mse"), ("pi",), alpha=0.2, skip_low=True)),
         "breaks": ("breaks", 1, [], lambda e, p: reports.do_breaks(e["cnr"], e["seg"], 1)),
         "bintest": ("bintest", 1, [], lambda e, p: bintest.do_bintest(e["cnr"], e["seg"], 0.05)),
         "metrics": ("metrics", 1, [], lambda e, p: metrics.do_metrics(e["cnr"], e["seg"])),
@@ -339,7 +343,7 @@ def ops():
 BASE_OPS = ["target", "antitarget", "fix", "fix-plain", "segment-none", "segment-haar", "segment-haar-skip", "segment-hmm",
             "segment-hmm-tumor", "segment-hmm-germline", "segmetrics", "segmetrics-smooth", "call-none",
             "call-threshold", "call-clonal", "call-ci-cn", "call-sem", "call-ampdel", "call-cc", "genemetrics",
-            "genemetrics-seg", "breaks", "bintest", "metrics", "export-bed", "export-vcf", "export-seg", "export-theta",
+            "genemetrics-seg", "genemetrics-cl", "bintest-target", "segmetrics-skip", "breaks", "bintest", "metrics", "export-bed", "export-vcf", "export-seg", "export-theta",
             "center_all-copy", "shuffle-copy", "merge", "flatten", "subtract", "intersection", "subdivide", "resize", "by_arm",
             "by_gene", "by_gene-list", "by_gene-tuple", "squash_genes-list", "transfer_fields-list",
             "gene_intervals-list"]
@@ -783,6 +787,10 @@ def gen_cases(rng, tier):
         for n in allops:
             for ds in dss:
                 cases.append(_hist(ds, [n], rng, "len1"))
+        for a in allops:
+            for b in allops:
+                if not (a.endswith("@p16") and b.endswith("@p16")):
+                    cases.append(_hist(rng.choice(dss), [a, b], rng, "len2"))
         n_ep, n_tr, n_ga, n_long = 1200, 100, 80, 5000
     else:  # search: biased to the steps that reach the generators, the pools and the list arguments
         n_ep, n_tr, n_ga, n_long = 200, 100, 10, 500
